@@ -9,7 +9,8 @@
    No proofs here.  The model describes /repo after the fixes 0fedb86, 222ce93, 2cf0b5a,
    cafb4ab, ff837ac (delete_transactions rebuilds utxo_map from the transactions that are
    still pooled; add_block_transactions_back re-inserts through add_transaction) and the
-   producer-side fixes f62222f, e0300b2, 1214e31, 9879695, ffb4da9, bb88717 (see bundle_block below).
+   producer-side fixes f62222f, e0300b2, 1214e31, 9879695, ffb4da9, bb88717, df3ca14 (see bundle_block and
+   remove_block_transactions below).
 
    Abstraction.  Signatures, utxoset keys and hashes are interned numbers.  A
    transaction carries what the pool reads of it: its signature [t_id] (key of
@@ -177,8 +178,18 @@ Definition delete_block (p : pool) (block_hash : N) : pool :=
 
 (* ---- Blockchain::remove_block_transactions (called by add_block_success, also for
         blocks that did not become part of the longest chain) ---- *)
+(* df3ca14: the retain keeps a transaction when its inputs are spendable and still inside the
+   window for the next block -- the age rule of validate(), with the same exemption of
+   rebroadcast and issuance transactions *)
+Definition still_valid (ledger : chain) (t : tx) : bool :=
+  valid_against ledger t &&
+  match t_type t with
+  | TATR | TIssuance => true
+  | _ => age_ok ledger t
+  end.
+
 Definition remove_block_transactions (ledger : chain) (p : pool) (btxs : list tx) : pool :=
-  delete_transactions (set_txs p (filter (valid_against ledger) (txs p))) btxs.
+  delete_transactions (set_txs p (filter (still_valid ledger) (txs p))) btxs.
 
 (* ---- Blockchain::add_block_failure = delete_block + add_block_transactions_back:
         Normal transactions of a block created by this node that validate are handed to
@@ -298,8 +309,7 @@ Inductive op :=
 | OBlockAdded (keys' : list N) (latest' : N) (btxs : list tx)
     (* add_block_success on a block with transactions btxs; keys' = spendable set and
        latest' = id of the latest block afterwards (unchanged for an off-chain block,
-       arbitrary after a reorganisation).  The retain of remove_block_transactions looks
-       the inputs up in the utxoset only: it does not apply the age rule. *)
+       arbitrary after a reorganisation) *)
 | OBlockFailed (block_hash : N) (mine : bool) (btxs : list tx).
     (* add_block_failure; mine = (block.creator == wallet.public_key) *)
 
